@@ -227,6 +227,16 @@ fn same_multiset(what: &str, got: (Vec<(u32, u16)>, bool), expect: &[(u32, u16)]
     }
 }
 
+/// Very large tables are walked in O(buckets) per iterator, so they get three switch points instead of all of them.
+fn prefixes_for(spec: &Spec, len: usize, rng: &mut Rng, thorough: bool) -> Vec<usize> {
+    if spec.recipe == crate::states::Recipe::HugeSparse {
+        let mut v = vec![0, 1.min(len), len];
+        v.dedup();
+        return v;
+    }
+    prefixes(len, rng, thorough)
+}
+
 fn prefixes(len: usize, rng: &mut Rng, thorough: bool) -> Vec<usize> {
     if len <= 64 && (thorough || len <= 20) {
         (0..=len).collect()
@@ -253,7 +263,7 @@ fn map_case<K: Elem, V: Elem>(c: &mut Ctx, spec: &Spec, rng: &mut Rng) {
     let len = expect.len();
     drop(probe);
     let kid = |k: &K| (k.id(), k.gen());
-    for p in prefixes(len, rng, c.thorough()) {
+    for p in prefixes_for(spec, len, rng, c.thorough()) {
         for mode in 0..MODES {
             let which = rng.below(9);
             let name = ["iter", "iter_mut", "keys", "values", "values_mut", "into_iter", "into_keys", "into_values", "drain"][which as usize];
@@ -314,7 +324,7 @@ fn set_case<T: Elem>(c: &mut Ctx, spec: &Spec, rng: &mut Rng) {
     let expect = probe.contents();
     let len = expect.len();
     drop(probe);
-    for p in prefixes(len, rng, c.thorough()) {
+    for p in prefixes_for(spec, len, rng, c.thorough()) {
         for mode in 0..MODES {
             let which = rng.below(3);
             let name = ["iter", "into_iter", "drain"][which as usize];
@@ -348,7 +358,7 @@ fn table_case<E: Elem>(c: &mut Ctx, spec: &Spec, rng: &mut Rng) {
     let expect = probe.contents();
     let len = expect.len();
     drop(probe);
-    for p in prefixes(len, rng, c.thorough()) {
+    for p in prefixes_for(spec, len, rng, c.thorough()) {
         for mode in 0..MODES {
             let which = rng.below(4);
             let name = ["iter", "iter_mut", "into_iter", "drain"][which as usize];
@@ -452,7 +462,13 @@ fn defaults(c: &mut Ctx) {
 pub fn run(c: &mut Ctx) {
     c.run_scenarios(|c, idx, rng| {
         let recipe = RECIPES[((crate::util::mix(idx) / 9) % RECIPES.len() as u64) as usize];
+        // one scenario in 40: a very large sparse table (2^18..2^26 buckets), so that iterator code gated on the amount of
+        // control bytes ahead is driven in every mode as well
+        let recipe = if crate::util::mix(idx ^ 0x9e) % 40 == 0 { crate::states::Recipe::HugeSparse } else { recipe };
         let spec = Spec::random(rng, recipe);
+        if spec.recipe == crate::states::Recipe::HugeSparse {
+            c.bump("huge_sparse_states");
+        }
         let mut d = Json::obj();
         d.set("state", Json::s(spec.describe()));
         d.set("case", Json::i(crate::util::mix(idx) % 9));
@@ -461,6 +477,7 @@ pub fn run(c: &mut Ctx) {
             0 => map_case::<T24, T24>(c, &spec, rng),
             1 => map_case::<P8, P8>(c, &spec, rng),
             2 => map_case::<B1, Z>(c, &spec, rng),
+            3 if rng.chance(1, 3) => map_case::<crate::elem::L600, B1>(c, &spec, rng),
             3 => map_case::<L200, B1>(c, &spec, rng),
             4 => set_case::<T24>(c, &spec, rng),
             5 => set_case::<B1>(c, &spec, rng),
